@@ -14,12 +14,13 @@ names = [a for a in sys.argv[1:] if not a.startswith("--")] or sorted(os.listdir
 # --scratch: in a throw-away worktree of /repo's HEAD with VERIF_REPO pointing at it, so that /repo stays free for other runs
 SCRATCH = "--scratch" in sys.argv
 TREE = "/repo"
-ENV = ""
+EVD = "/tmp/seed_evidence_%d" % os.getpid()      # the evidence of runs on a broken tree never lands in /verif/evidence
+ENV = "VERIF_EVIDENCE_DIR=%s " % EVD
 if SCRATCH:
     TREE = "/tmp/repo_seed_%d" % os.getpid()
     sh("git -C /repo worktree add --detach %s HEAD" % TREE)
     sh("cp /repo/config.h /repo/config.status %s/" % TREE)
-    ENV = "VERIF_REPO=%s " % TREE
+    ENV += "VERIF_REPO=%s " % TREE
 rc, o = sh("git -C %s status --short | grep -v '^??' | head -1" % TREE)
 if o.strip():
     print("refusing: %s has uncommitted changes" % TREE); sys.exit(2)
@@ -48,6 +49,7 @@ for name in names:
     det = rc2 == 1 and viol
     missed += not det
     print(name, pid, "detected" if det else "MISSED (rc %d)" % rc2, flush=True)
+sh("rm -rf %s" % EVD)
 if SCRATCH:
     sh("git -C /repo worktree remove --force %s" % TREE)
 sys.exit(1 if missed else 0)
